@@ -166,16 +166,16 @@ ZOO_NAMES = ("#[allow(non_camel_case_types, dead_code)]\npub mod zoo_names {\n"
              "    #[derive(Debug, Clone, Copy, PartialEq, Eq, PartialOrd, Ord, Hash, Default)] pub struct Vec<T>(pub T);\n"
              "    #[derive(Debug, Clone, Copy, PartialEq, Eq, PartialOrd, Ord, Hash, Default)] pub struct String(pub u8);\n"
              "}\n#[allow(non_camel_case_types, dead_code)]\npub mod zoo_prim {\n    #[derive(Debug, Clone, Copy, PartialEq, Eq, PartialOrd, Ord, Hash, Default)] pub struct r#u8(pub bool);\n}\n")
-ZOO_PRE = ZOO_NAMES + "static ZOO_DATA: [u8; 5] = [1, 2, 3, 4, 5];\nstatic ZOO_STR: &str = \"abcde\";\n" + ("macro_rules! zoo_ty { () => { u8 }; }\npub trait ZooTr { type Out; }\nimpl ZooTr for u8 { type Out = u16; }\n"
+ZOO_PRE = ZOO_NAMES + "#[allow(dead_code)] type ZooF = f64;\n" + "static ZOO_DATA: [u8; 5] = [1, 2, 3, 4, 5];\nstatic ZOO_STR: &str = \"abcde\";\n" + ("macro_rules! zoo_ty { () => { u8 }; }\npub trait ZooTr { type Out; }\nimpl ZooTr for u8 { type Out = u16; }\n"
            "fn zoo_inc(x: u8) -> u8 { x.wrapping_add(1) }\nfn zoo_dec(x: u8) -> u8 { x.wrapping_sub(1) }\nfn zoo_id(x: &u8) -> &u8 { x }\nfn zoo_id2(x: &u8) -> &u8 { let _ = 2; x }\n")
 
 
-def zoo_cases(prop, educed, std_for_educe_type, twin_derives, body_check):
+def zoo_cases(prop, educed, std_for_educe_type, twin_derives, body_check, zoo=None):
     """One case per (type form, shape).  `educed`: educe trait list text; `std_for_educe_type`: std derives on the educe type; `twin_derives`: std derives on the twin;
     body_check: Rust statements using `vs: Vec<(Ty, tw::Ty)>` and `r`."""
     from ..core import Case
     out = []
-    for zid, zty, zvals in ZOO:
+    for zid, zty, zvals in (zoo or ZOO):
         for kind in ('sn', 'st', 'en'):
             if kind == 'sn':
                 decl = 'pub struct Ty { pub a: u8, pub z: %s, pub b: u8 }' % zty
@@ -202,6 +202,11 @@ def zoo_cases(prop, educed, std_for_educe_type, twin_derives, body_check):
             out.append(Case('%s|zoo|%s|%s' % (prop, zid, kind), src, {'field_type': zty, 'shape': kind, 'oracle': '#[derive(%s)] on a twin' % twin_derives},
                             expect='accept', run=True, depth=1))
     return out
+
+
+# floating-point forms (no Eq / Ord / Hash of their own): -0.0 == 0.0 and NaN != NaN must survive whatever is educed next to PartialEq
+ZOO_FLOAT = [('f64', 'f64', ['0.0f64', '-0.0f64', 'f64::NAN', '1.5f64']), ('f32', 'f32', ['0.0f32', '-0.0f32', 'f32::NAN']), ('f64-array', '[f64; 2]', ['[0.0, 1.0]', '[-0.0, 1.0]', '[f64::NAN, 1.0]']),
+             ('f32-option', 'Option<f32>', ['None', 'Some(0.0)', 'Some(-0.0)', 'Some(f32::NAN)']), ('f64-alias', 'ZooF', ['0.0', '-0.0', 'ZooF::NAN'])]
 
 
 # ---- dynamically sized structs: the last field is a `?Sized` parameter (values reach it through unsized coercion); oracle: the std derive on a twin
